@@ -67,6 +67,9 @@ def make_cfg(seed, i):
     up.pop("noise.additive_noise_level", None)
     up.pop("noise.multiplicative_noise_level", None)
     campaign.maybe_failpoint(cfg, rng, p=0.1)
+    if cfg["args"].get("scaling_within_bounds") and np.random.default_rng([int(seed), NUM, int(i), 7]).random() < 0.4:
+        # the scaling switch (and float parameters) given as numpy scalars: the Jacobian must still come back in the user's coordinates
+        cfg["_forms"] = sorted(set(list(cfg.get("_forms") or []) + ["np_scalars"]))
     return cfg
 
 
